@@ -22,7 +22,7 @@ VERSION = 1
 BUDGET = {'quick': 40, 'thorough': 600}
 CHUNK = {'quick': 150, 'thorough': 300}
 RULE = ('one case = one call of map/imap/starmap/starcall (pool method or module-level function) with 0-6 items, pool '
-        'size 1-7, seeded positions of failing items, both result modes, in an idle or a busy process (up to 2000 further live threads), optionally with one refused thread start, under one seeded schedule of the worker threads '
+        'size 1-7, seeded positions of failing items, both result modes, callable kind (function / partial / callable object / bound method), in an idle or a busy process (up to 2000 further live threads), optionally with one refused thread start, under one seeded schedule of the worker threads '
         '- or (nested mode) 3-24 outer items each running an inner fan-out - or (call-site mode) 1-3 request threads on one TileManager each creating 2-4 uncached (meta) tiles at once '
         'through TileCreator._create_threaded, with seeded failing fetches '
         '(every queue operation and every step inside an item is a pre-emption point); non-trivial = at least two items '
